@@ -18,7 +18,7 @@ import traceback
 from pathlib import Path
 
 ROOT = Path(__file__).resolve().parent.parent
-EVID = ROOT / "evidence"
+EVID = Path(os.environ.get("SYMCURIE_EVIDENCE") or ROOT / "evidence")   # scratch override for development runs against a changed copy
 KNOWN_FILE = ROOT / "known_findings.json"
 PROPS = [f"C{n:02d}" for n in range(1, 21)]
 
